@@ -547,10 +547,10 @@ GENERATORS = ["nutree/0.5.1", "nutree/1.0.0", "nutree/0.9.1-a1"]
 
 
 def shards(tier, seed):
-    out = [{"name": f"writer{i}", "kind": "writer", "i": i, "bound": 5 if tier == "quick" else 7,
-            "rand": 20 if tier == "quick" else 1500, "budget_s": 150 if tier == "quick" else 2400} for i in range(NSHARDS)]
-    out += [{"name": f"reader{i}", "kind": "reader", "i": i, "count": 80 if tier == "quick" else 8000,
-             "budget_s": 100 if tier == "quick" else 1500} for i in range(NSHARDS)]
+    out = [{"name": f"writer{i}", "kind": "writer", "i": i, "bound": 5 if tier == "quick" else 8,
+            "rand": 20 if tier == "quick" else 6000, "budget_s": 150 if tier == "quick" else 3600} for i in range(NSHARDS)]
+    out += [{"name": f"reader{i}", "kind": "reader", "i": i, "count": 80 if tier == "quick" else 40000,
+             "budget_s": 100 if tier == "quick" else 3600} for i in range(NSHARDS)]
     out.append({"name": "examples", "kind": "examples", "budget_s": 60})
     return out
 
